@@ -81,7 +81,7 @@ def run(chk, facts_dir, tier):
         ev = Ev(prog, hb)
         bad = False
         for ob, s in ok_return_blocks(hb):
-            term = strip(ev.operand(s["rv"]["ops"][0], (ob, 0)))
+            term = strip(ev.operand(s["rv"]["ops"][0], (ob, "T")))
             if term[0] == "agg" and term[1].endswith("Option::None"):
                 bad = True
         if bad:
